@@ -106,6 +106,23 @@ def run(repo: Repo, L: Ledger, tier: str):
                             else:
                                 L.fail("R2", inst, f"haplotig counter reset by '{norm(nnode)}' in {name}: names H_1.. repeat", m.loc(nnode))
 
+    # the per-chromosome unloc state is reset for EVERY Pretext scaffold (on every normal path)
+    mk = namer.methods.get("make_scaffold_name")
+    if mk is None:
+        raise AnalysisError("anchor ScaffoldNamer.make_scaffold_name vanished")
+    from ..flow import PathEnum
+
+    okr, whyr, npaths = True, "", 0
+    for p in PathEnum((0, 1), exc_edges=False).function_paths(mk.node):
+        if p.status != "return":
+            continue
+        npaths += 1
+        sets = {norm(e.node.targets[0]): norm(e.node.value) for e in p.events if e.kind == "stmt" and isinstance(e.node, ast.Assign) and isinstance(e.node.targets[0], ast.Attribute)}
+        if sets.get("self.unloc_n") != "0" or sets.get("self.unloc_scaffolds") != "[]":
+            okr, whyr = False, f"a path through make_scaffold_name keeps the previous scaffold's unloc counter/list ({p.describe(6)}): unlocs of the next Pretext scaffold continue the numbering (…_unloc_3, _4 instead of _1, _2) and are ranked by size together with the previous chromosome's"
+            break
+    L.check(okr and npaths > 0, "R2", mk.short + ":unloc-reset", f"unloc counter and list reset on all {npaths} normal paths", whyr, mk.loc())
+
     # ---- R3 rename_by_size
     rbs = namer.methods.get("rename_by_size")
     if rbs is None:
